@@ -877,6 +877,19 @@ def register(M):
                 return mk("eiter", *out)
         return mk("take", it, n)
 
+    @reg("std::iter::Iterator::take_while", "std::iter::Iterator::skip_while", "std::iter::Iterator::map_while",
+         "std::iter::Iterator::step_by")
+    def it_positional_adaptor(ev, fr, prog, fty, args, cx):
+        # prefix / suffix / stride of a sequence: an order-sensitive adaptor.  Kept as a term of its own (the
+        # rule packs list it among the positional operators); elements reached through `iter_mut` may be written
+        it = itv(ev, args[0])
+        M.order_event(ev, fty["path"].rsplit("::", 1)[-1], it) if it.op == "eiter" else None
+        for sub in tm.subterms(it):
+            if sub.op in ("iter_mut", "values_mut") and is_ref(sub.a[0]):
+                pl = place_of_ref(sub.a[0])
+                ev.write(pl, mk("havoc", mk("call", fty["path"], ev.read(pl)), 0))
+        return mk(fty["path"].rsplit("::", 1)[-1], it, *args[1:])
+
     @reg("std::iter::Iterator::skip")
     def it_skip(ev, fr, prog, fty, args, cx):
         return mk("skip", itv(ev, args[0]), args[1])
